@@ -27,4 +27,8 @@ CHECKS = {
         text='On all name-aligned ordered pairs of the <=3-named universe (exhaustive in thorough: 346k aligned of 3.9M pairs, 80 call shapes each) merge accepts exactly the non-colliding calls both inputs accept and raises IncompatibleSignatures iff no common call exists; unary/idempotence/neutral-element/round-trip laws on all 4 437 signatures; n-ary = nested on every role-consistent triple of the <=1-named universe, 3M sampled triples of the <=2-named one and 32k constructed Hypothesis tuples.',
         design_ref='DESIGN.md 2/C09', technique='bounded-exhaustive enumeration + Hypothesis vs CPython-binding oracle (set equality), algebraic-law and fold metamorphic relations',
         note='Trusted: vlib/cpbind.py (self-checked in C01/C03 runs). Results compared up to keyword-only order. merge(s,s) compared on parameters only (provenance of duplicates is C08).'),
+    'C02': dict(
+        text='embed agrees with an independent two-stage reference (outer binds, surplus forwarded to inner) in both directions on 220 outers x 1 305 inners x 4 use_* combinations (exhaustive in thorough, 192 shapes each), with the stated exemption counted separately; raise => shared name or infeasible; n-ary = nested on 1.5M sampled triples; bare outer returns inner unchanged; 32k Hypothesis cases with <=5 named parameters.',
+        design_ref='DESIGN.md 2/C02', technique='bounded-exhaustive enumeration + Hypothesis vs reference-semantics oracle built on the CPython-binding model',
+        note='Trusted: vlib/cpbind.py; the reference semantics in checks/c02.py (ref_pairs) written from the property statement.'),
 }
